@@ -38,6 +38,10 @@ func worldsFor(kind string) []world {
 		return []world{{Name: "publisher", Publisher: true, GenesisCoins: normalCoins, MaxBlockSize: 32768}}
 	case "both":
 		return append(worldsFor("follower"), worldsFor("publisher")...)
+	case "follower+offered": // a follower, and a publisher (arbitrating) node that creates blocks AND is offered publisher-signed blocks
+		return append(worldsFor("follower"), worldsFor("publisher-offered")...)
+	case "publisher-offered":
+		return []world{{Name: "publisher-offered-blocks", Publisher: true, OfferBlocks: true, GenesisCoins: normalCoins, MaxBlockSize: 32768}}
 	case "publisher-small":
 		return []world{{Name: "publisher-small", Publisher: true, GenesisCoins: normalCoins, MaxBlockSize: 1024, SmallTxn: true}}
 	case "extreme":
